@@ -520,8 +520,10 @@ pub fn check_gamma(deep: bool, stats: &mut SimpStats, fails: &mut Vec<Failure>) 
         free_vars(fout, &mut Vec::new(), &mut fv_out);
         if fv_out.iter().any(|v| !fv_in.contains(v)) { return Some(Failure { property: "C05", input: format!("{what}: {src}"), detail: format!("gamma formula `{fout}` has a free variable the input does not have") }); }
         // distinct predicates receive distinct copies: the copies of p/n are exactly hp/n and tp/n
-        let preds_in: std::collections::BTreeSet<(String, usize)> = fin.predicates().into_iter().map(|p| (p.symbol, p.arity)).collect();
-        for q in fout.predicates() {
+        let preds_in: std::collections::BTreeSet<(String, usize)> = crate::own::formula_preds(fin);
+        for (q_symbol, q_arity) in crate::own::formula_preds(fout) {
+            struct Q { symbol: String, arity: usize }
+            let q = Q { symbol: q_symbol, arity: q_arity };
             let ok = (q.symbol.starts_with('h') || q.symbol.starts_with('t')) && preds_in.contains(&(q.symbol[1..].to_string(), q.arity));
             if !ok { return Some(Failure { property: "C05", input: format!("{what}: {src}"), detail: format!("gamma formula `{fout}` mentions {}/{}, which is not the h- or t-copy of a predicate of the input", q.symbol, q.arity) }); }
         }
